@@ -99,9 +99,11 @@ impl VM {
             #[cfg(vbxq_aelys_lang_verif)]
             let (verif_bl, verif_cl, verif_cl_true) = if verif_on {
                 let (bl, cl) = self.verif_true_lens(func_ref, bytecode_ptr, constants_ptr);
+                // a cached pointer that does not belong to the frame's function object has no
+                // known extent: every access through it is reported (length 0) and refused
                 (
-                    if bl == usize::MAX { bytecode_len } else { bl },
-                    if cl == usize::MAX { constants_len } else { cl },
+                    if bl == usize::MAX { 0 } else { bl },
+                    if cl == usize::MAX { 0 } else { cl },
                     cl,
                 )
             } else {
